@@ -85,7 +85,7 @@ def gen_list(rnd, by_dim, leaves, units, named_decls, irrational=False):
     dims = [d for d, ns in by_dim.items() if d != ()]
     d = rnd.choice(dims)
     pool = by_dim[d]
-    n = rnd.choice([2, 2, 3, 3, 4])
+    n = rnd.choice([2, 2, 3, 3, 4, 4, 5, 6]) if not irrational else rnd.choice([2, 2, 3, 3, 4])
     items = []
     seen_mag = set()
     idents = []
@@ -168,6 +168,11 @@ def run(chk, which="C07"):
                 lists.append(L)
         for li, L in enumerate(lists):
             perms = list(itertools.permutations(range(len(L))))
+            if len(L) >= 5:  # 120 / 720 orders: the identity, its reverse, every rotation and a random dozen
+                idx = list(range(len(L)))
+                keep = {tuple(idx), tuple(reversed(idx))} | {tuple(idx[r:] + idx[:r]) for r in range(len(L))}
+                keep |= set(rnd.sample(perms, 12))
+                perms = sorted(keep)
             for pi_, perm in enumerate(perms):
                 tag = f"c{ti}_{li}_p{pi_}"
                 entries[tag] = {"list": L, "li": li, "kind": "perm", "perm": perm}
@@ -195,7 +200,7 @@ def run(chk, which="C07"):
                 cu = lambda idx: (f"au::CommonUnitT<{', '.join(L[i][0] for i in idx)}>" if len(idx) > 1 else L[idx[0]][0])
                 n = len(L)
                 shapes = []
-                for pair in itertools.combinations(range(n), 2):
+                for pair in (itertools.combinations(range(n), 2) if n <= 4 else []):
                     rest = [i for i in range(n) if i not in pair]
                     if n == 4:
                         shapes += [(pair, tuple(rest)), (tuple(rest), pair)]      # CommonUnitT<CommonUnitT<a,b>, CommonUnitT<c,d>>
@@ -203,6 +208,12 @@ def run(chk, which="C07"):
                         shapes += [(pair, (rest[0],)), ((rest[0],), pair)]        # CommonUnitT<CommonUnitT<a,b>, c> and CommonUnitT<c, CommonUnitT<a,b>>
                 if n == 4:
                     shapes += [((0, 1, 2), (3,)), ((0,), (1, 2, 3)), ((3,), (2, 0, 1))]
+                if n >= 5:
+                    for _ in range(8):
+                        idx = list(range(n))
+                        rnd.shuffle(idx)
+                        cut = rnd.randrange(1, n)
+                        shapes.append((tuple(idx[:cut]), tuple(idx[cut:])))
                 shapes = [((0, 1), tuple(range(2, n)))] + rnd.sample(shapes, min(len(shapes), 5 if tier == "quick" else 9))
                 for ni, (g1, g2) in enumerate(shapes):
                     if ni == 0:
@@ -293,8 +304,8 @@ def run(chk, which="C07"):
         elif rejected or md5 != md5_main[p[0]]:
             chk.violation(f"C07|config_diff|{fl}|{std}|tu={p[0]}", msg=f"common-unit trace of TU {p[0]} differs between g++ c++14 and {fl} {std}")
     chk.add_evals(n_ev, nontrivial)
-    chk.cov["rule"] = ("2-, 3- and 4-element lists of same-dimension units (library units, anonymous and named scaled units with rational scale factors up to 2^40-sized numerators/denominators, pi on both sides, "
-                       "and a share of irrational-ratio lists); every permutation and one repetition variant is reified; the model computes the base-wise GCD magnitude and checks divisibility, joint coprimality, "
+    chk.cov["rule"] = ("2- to 6-element lists of same-dimension units (library units, anonymous and named scaled units with rational scale factors up to 2^40-sized numerators/denominators, pi on both sides, "
+                       "and a share of irrational-ratio lists); every permutation (for 5 and 6 elements: identity, reverse, rotations and a random dozen) and one repetition variant is reified; the model computes the base-wise GCD magnitude and checks divisibility, joint coprimality, "
                        "input reuse, permutation invariance, nesting equivalence, common_type symmetry; distinct_nontrivial = lists with all-rational ratios that were fully judged")
     chk.notes.update({"lists": nlists, "translation_units": n_tu})
     chk.assumptions += ["lists never contain two distinct *named* units of equal magnitude (documented ordering limitation); equal-magnitude pairs that the documented tie-breakers separate "
